@@ -289,7 +289,8 @@ def do_color(fmt, v, sub, variant, acc):
         dark, light = '#0000ff80', None
         kw = {'dark': dark, 'light': light}
         for i in sub:
-            kw[OPTS[i]] = '#ff000040'
+            # semi-transparent, and fully transparent in its three spellings (hex, int alpha 0, float alpha 0.0)
+            kw[OPTS[i]] = ('#ff000040', '#ff000000', (255, 0, 0, 0), (255, 0, 0, 0.0), (255, 0, 0, 128))[i % 5]
     if variant == 7:
         o = OPTS[sub[0]]
         pattern = sub[0] % 3
@@ -390,10 +391,12 @@ def do_color(fmt, v, sub, variant, acc):
             if fmt == 'svg':
                 strokes = grid[r][c]
                 if exp[3] == 0:
-                    good = not strokes
+                    # nothing painted, or painted with opacity 0
+                    good = not strokes or all(st[0] is None or Co.parse_svg_color(st[0], st[1])[3] == 0 for st in strokes)
                     obs = strokes
                 else:
-                    good = len(strokes) == 1 and strokes[0][0] is not None and Co.parse_svg_color(strokes[0][0], strokes[0][1])[:3] == exp[:3]
+                    good = len(strokes) == 1 and strokes[0][0] is not None and Co.parse_svg_color(strokes[0][0], strokes[0][1])[:3] == exp[:3] \
+                        and abs(Co.parse_svg_color(strokes[0][0], strokes[0][1])[3] - exp[3] / 255.0) <= 0.005
                     obs = strokes
                 # a single-colour document with a light colour uses a background fill instead of strokes
                 if not good and exp[3] != 0 and not strokes and doc.fills:
